@@ -25,7 +25,9 @@ where a test-level object hands out the contract-level one.  Emitted:
 Fail-closed: each link of the chain must be called exactly once in the module, by name, with plain
 positional / keyword arguments; run_tests must build the test's FunctionContext from
 `with_devdoc(ctx.args, ...)` and the shared `ctx`; run_tests / run_test / run_message must not store into
-the ContractContext.
+the ContractContext; run_contract initialises the caches with the post-setUp state alone
+(`ctx.frontier_states[0] = [setup_ex]`, `ctx.visited.add(get_state_id(setup_ex))`: Model.init_ctx) before its
+single call of run_tests.
 """
 import ast
 
@@ -154,6 +156,9 @@ def analyse(fn, env0, depth_loop=False):
         for t in targets:
             for r in _store_roots(t):
                 stores.append((r, prov(val, env)))
+        # setattr(x, ...) / object.__setattr__(x, ...) (how frozen dataclasses are written to)
+        if isinstance(n, ast.Call) and _src(n.func) in ("setattr", "object.__setattr__") and n.args:
+            stores.append((n.args[0], prov(n.args[-1], env)))
     return env, stores
 
 
@@ -236,8 +241,34 @@ def check_run_tests(tree):
     return {"test_cfg": _src(defs[0].value), "contract_ctx": ps[0]}
 
 
+def check_run_contract(tree):
+    """run_contract(ctx): ctx.frontier_states[0] = [setup_ex]; ctx.visited.add(get_state_id(setup_ex));
+    run_tests(ctx, setup_ex, ...) -- the initial caches hold the post-setUp state and nothing else (Model.init_ctx)"""
+    fn = find_function(tree, "run_contract")
+    ps = params_of(fn)
+    if len(ps) != 1:
+        _fail("run_contract: one parameter (the ContractContext) expected", fn)
+    c = ps[0]
+    body = [n for n in _walk(fn)]
+    stores = [n for n in body if isinstance(n, ast.Assign) and any("frontier_states" in _src(t) for t in n.targets)]
+    if len(stores) != 1 or _src(stores[0].targets[0]) != f"{c}.frontier_states[0]" or not (
+            isinstance(stores[0].value, ast.List) and len(stores[0].value.elts) == 1 and isinstance(stores[0].value.elts[0], ast.Name)):
+        _fail(f"run_contract: expected the single store `{c}.frontier_states[0] = [<setup state>]`", stores[0] if stores else fn)
+    setup_name = stores[0].value.elts[0].id
+    vis = [n for n in body if isinstance(n, ast.Call) and "visited" in _src(n.func)]
+    if len(vis) != 1 or _src(vis[0]) != f"{c}.visited.add(get_state_id({setup_name}))":
+        _fail(f"run_contract: expected the single call `{c}.visited.add(get_state_id({setup_name}))`", vis[0] if vis else fn)
+    rts = calls_to(fn, "run_tests")
+    if len(rts) != 1 or [_src(a) for a in rts[0].args[:2]] != [c, setup_name] or rts[0].lineno < stores[0].lineno or rts[0].lineno < vis[0].lineno:
+        _fail(f"run_contract: expected `run_tests({c}, {setup_name}, ...)` after the cache initialisation", rts[0] if rts else fn)
+    if sum(1 for n in ast.walk(tree) if isinstance(n, ast.Name) and n.id == "run_tests") != 1:
+        _fail("run_tests must be called exactly once in the module (by run_contract)")
+    return {"setup_state": setup_name}
+
+
 def translate(src_text):
     tree = ast.parse(src_text)
+    rc = check_run_contract(tree)
     fns = {n: find_function(tree, n) for n in CHAIN}
     sigs = {n: params_of(f) for n, f in fns.items()}
     rt = check_run_tests(tree)
@@ -336,7 +367,7 @@ def translate(src_text):
         "",
     ]
     info = {"explore_cfg_src": cfg_src, "frontier_test_inputs": tainted, "cache_key_depth_only": key_ok,
-            "key_lookup": sorted(key_lookup), "key_store": sorted(key_store), "signatures": sigs, "run_tests": rt,
+            "key_lookup": sorted(key_lookup), "key_store": sorted(key_store), "signatures": sigs, "run_tests": rt, "run_contract": rc,
             "target_cfg_provenance": sorted(cfg_lab)}
     return "\n".join(lines), info
 
